@@ -562,7 +562,15 @@ class Visitor:
         value = safe_get_expression(node.value, parent=self.current, parse_strings=False)
 
         try:
-            docstring = self._get_docstring(ast_next(node), strict=True)
+            next_node = ast_next(node)
+            # An attribute docstring follows the assignment in the same block:
+            # the first statement of an `else` or `finally` clause does not document
+            # the last assignment of the clause above it.
+            same_block = any(
+                isinstance(block, list) and any(stmt is node for stmt in block) and any(stmt is next_node for stmt in block)
+                for block in (getattr(node.parent, field, None) for field in node.parent._fields)  # type: ignore[attr-defined]
+            )
+            docstring = self._get_docstring(next_node, strict=True) if same_block else None
         except (LastNodeError, AttributeError):
             docstring = None
 
